@@ -184,7 +184,23 @@ def sweep_record(scn, planes=(0.34, 0.67, 1.0)):
                     gap = [rx.core.adjacent_coolant_gap_temp(ai)[rx.core._asm_sc_adj[ai] > 0].copy()
                            for ai in range(len(rx.assemblies))]
                 rec.append(([fields(a) for a in rx.assemblies], gap))
+        # what the DUCT TEMPERATURE SUMMARY of dassh.out prints per duct and hexagon face (real table method)
+        from dassh.table import DuctTempTable
+        rx._vf_face_table = [np.array(DuctTempTable._get_avg_duct_face_temp(a), dtype=float) for a in rx.assemblies]
         return rec, rx, n
+
+
+def face_points(xy_cells):
+    """one point per hexagon face of a duct ring given its cells in DASSH's order (face by face, the closing corner
+    last): the mean position of the cells the printed face average is taken over (own cells + the corner closing the
+    previous face)"""
+    xy = np.asarray(xy_cells, dtype=float)
+    k = len(xy) // 6
+    pts = []
+    for f_ in range(6):
+        idx = [(f_ * k - 1) % len(xy)] + list(range(f_ * k, (f_ + 1) * k))
+        pts.append(xy[idx].mean(axis=0))
+    return np.array(pts)
 
 
 # ----------------------------------------------------------------------
@@ -218,7 +234,7 @@ def run_asm(c):
         G = gmat(g)
         w2, perms = moved_power(w, lay, G, nduct)
         wire2 = other if g == 'm' else wd
-        got, _, n2 = sweep_record(scn_for(w2, wire2))
+        got, _rx2, n2 = sweep_record(scn_for(w2, wire2))
         r['traces'] += 1
         r['transitions'] += n2
         if n2 != n:
@@ -245,6 +261,21 @@ def run_asm(c):
                                        'gap temperatures round the assembly do not move with the problem', dev, 0.0, TOL))
             if V:
                 break
+        # the printed face averages of every duct move with the problem
+        if not V:
+            lastreg = rx0.assemblies[0].region[-1]
+            ft0, ft2 = rx0._vf_face_table[0], _rx2._vf_face_table[0]
+            for d_ in range(ft0.shape[0]):
+                pts = face_points(SIX if not lastreg.is_rodded else lay['layer%d' % (2 * d_)])
+                pf = perm_of(pts, G, tol=1e-7)
+                dev = float(np.max(np.abs(move(ft0[d_], pf) - ft2[d_])))
+                worst = max(worst, dev)
+                if dev > TOL:
+                    V.append(violation('face-table-not-equivariant', dict(c, g=str(g), duct=d_ + 1),
+                                       'face averages of duct %d in the duct temperature table do not move with the '
+                                       'problem (element %s)' % (d_ + 1, g), dev, 0.0, TOL,
+                                       site='table.py:DuctTempTable._get_avg_duct_face_temp'))
+                    break
         if g == 'm' and rx0.assemblies[0].rodded.wire_diameter > 0 and not V:
             # teeth: mirrored map WITHOUT reversing the wire must give a different answer
             bad, _, _ = sweep_record(scn_for(w2, wd))
@@ -344,8 +375,19 @@ def run_core(c):
             if not t:
                 continue
             ring, p = pos[i]
-            assign.append([t, ring, p, {'flowrate': flows[i] * (60.0 if c.get('mfr') == 'kg/min' else 1.0)}])
+            fac_ = {'kg/min': 60.0, 'lb/hr': 3600.0 / 0.45359237}.get(c.get('mfr'), 1.0)
+            assign.append([t, ring, p, {'flowrate': flows[i] * fac_}])
             power[str(i + 1)] = spec_from(wmap[i])
+        if c.get('ranges'):
+            # consecutive positions of one ring with the same type and flow written as ONE assignment line
+            merged = []
+            for a_ in sorted(assign, key=lambda x: (x[1], x[2])):
+                m_ = merged[-1] if merged else None
+                if m_ and m_[0] == a_[0] and m_[1] == a_[1] and m_[3] == a_[3] and (m_[4] if len(m_) > 4 else m_[2]) + 1 == a_[2]:
+                    merged[-1] = [m_[0], m_[1], m_[2], m_[3], a_[2]]
+                else:
+                    merged.append(list(a_))
+            assign = merged
         setup = {'param_update_tol': c['tol']} if c.get('tol') else {}
         if c.get('starved') is not None:
             setup['conv_approx'] = True
@@ -356,6 +398,8 @@ def run_core(c):
                 'types': {t: types[t] for t in sorted(set(x for x in layout if x))},
                 'assign': assign, 'power': {'asm': power}}
     flows0 = {i: round(0.8 + 0.11 * ((i * 3) % 7), 4) for i, t in enumerate(lay) if t}
+    if c.get('ranges'):
+        flows0 = {i: (1.0 if t == 'A' else 0.7) for i, t in enumerate(lay) if t}      # one flow per type
     if c.get('starved') is not None:
         # one assembly far below the others: with the low-flow convection approximation requested, only
         # that assembly falls under the cut-off, wherever the rotation puts it in the position order
@@ -479,6 +523,10 @@ def cases(tier):
         # flow rates written in kg/min, cores with empty positions (every position's flow is converted)
         for lay in (['B', 'A', None, 'A', 'A', 'B', 'A'], [None, 'A', 'A', None, 'B', 'A', 'B']):
             core.append(dict(layout=lay, gap_model='flow', elements=[1, 2, 4], mfr='kg/min'))
+        # runs of positions written as range lines (flows in kg/min / lb/hr): a rotation regroups the runs
+        for lay in (['A', 'A', 'A', 'B', 'B', 'A', 'A'], ['B', 'A', 'A', 'A', None, 'B', 'B']):
+            for mfr in ('kg/min', 'lb/hr'):
+                core.append(dict(layout=lay, gap_model='flow', elements=[1, 3, 5], mfr=mfr, ranges=True))
         lay19 = (['A', 'B', 'A', 'A', 'B'] * 4)[:19]
         for vac, gm in ((0, 'no_flow'), (4, 'duct_average'), (11, 'flow')):
             lay = list(lay19)
